@@ -1020,3 +1020,31 @@ def key_parity_of_distance(repo, tier="quick"):
     # no odd / even test in vespr_layout or in a helper it calls directly (a table of distances, a closed formula): nothing to
     # ask; the other KEY.K3 obligations carry the floor of this family
     return obs
+
+
+def prov_valence_choice(repo, tier="quick"):
+    """Hydrogens are filled up to "the smallest standard valence of the element that is not below the bonds the atom already
+    has" (pysmiles' fill_valence).  A local refill that asks pysmiles for the valences of the element and takes the *first*
+    one is right for C, N, O and the halogens and wrong for every hypervalent S or P that still lacks a hydrogen."""
+    oid = "PROV.valence-choice"
+    mod = repo.module("pysmiles_utils")
+    obs = []
+    for q, fi in mod.functions.items():
+        fl = fi.flow
+        held = set()
+        for call, nid in fl.calls():
+            nm = _ext(repo, fi, call) or ""
+            if nm.endswith("smiles_helper.valence") or nm.endswith(".valence"):
+                st = fi.cfg.nodes[nid].ast
+                if isinstance(st, ast.Assign) and len(st.targets) == 1 and isinstance(st.targets[0], ast.Name):
+                    held.add(st.targets[0].id)
+                for sub in ast.walk(fi.node):
+                    if isinstance(sub, ast.Subscript) and sub.value is call and _int_literal(sub.slice) and ast.literal_eval(sub.slice) == 0:
+                        obs.append(ob_fail(oid, fi, sub, construct="valence(...)[0]", instance=fi.name, reason="the first valence of the element, not the smallest one that fits the bonds present"))
+        for sub in ast.walk(fi.node):
+            if isinstance(sub, ast.Subscript) and isinstance(sub.value, ast.Name) and sub.value.id in held and isinstance(sub.ctx, ast.Load) and \
+                    _int_literal(sub.slice) and ast.literal_eval(sub.slice) == 0:
+                obs.append(ob_fail(oid, fi, sub, construct="%s[0] with %s = valence(...)" % (sub.value.id, sub.value.id), instance=fi.name,
+                                   reason="the first valence of the element is taken, not the smallest one that is not below the bonds the atom has: a sulfonyl or phosphonate "
+                                          "atom with a free descriptor gets no hydrogen (bond-order sum 5 instead of 6)"))
+    return obs
